@@ -573,6 +573,7 @@ func (session *HermesSession) Run(workingDir string, args []string, logID string
 			}
 			// ************ ENDE AUSSAATMODUL ************
 			// ************ END OF SOWING MODULE ************
+			verifDayStartProbe(&g, &hermesWaterVar, &nitroSharedVars, &cropSharedVars, ZEIT, WDT)
 			var STEPS float64
 			if WDT < g.DT.Num {
 				STEPS = g.DT.Num / WDT
@@ -581,6 +582,7 @@ func (session *HermesSession) Run(workingDir string, args []string, logID string
 			}
 			for SUBD := 1; SUBD <= int(STEPS); SUBD++ {
 				Water(WDT, SUBD, ZEIT, &g, &hermesWaterVar)
+				verifAfterWaterProbe(&g, &hermesWaterVar, ZEIT, SUBD, WDT, STEPS)
 				if SUBD == 1 {
 					SWC := 0.0
 					SWC1 = 0
@@ -628,6 +630,7 @@ func (session *HermesSession) Run(workingDir string, args []string, logID string
 				if finished {
 					cropOutputConfig.WriteLine(CNAMfile)
 				}
+				verifAfterNitroProbe(&g, &hermesWaterVar, &nitroSharedVars, ZEIT, SUBD, WDT, STEPS)
 			}
 
 			for I := 1; I <= g.N; I++ {
@@ -638,6 +641,7 @@ func (session *HermesSession) Run(workingDir string, args []string, logID string
 			} else {
 				Denitr(&g, false)
 			}
+			verifDayEndProbe(&g, &hermesWaterVar, &nitroSharedVars, &cropSharedVars, ZEIT)
 
 			g.AKTUELL = g.Kalender(ZEIT)
 			if g.YORGAN == 0 {
